@@ -9,15 +9,16 @@ from props import c16v
 from props import c16w
 
 ID = "C16"
-TARGETS = ["Proofs.C16", "Proofs.C16More", "Proofs.C16Std"] + c16v.TARGETS
+TARGETS = ["Proofs.C16", "Proofs.C16More", "Proofs.C16Std", "Proofs.C16Fss"] + c16v.TARGETS
 GEN_PREFIXES = []
 MODELLED = ["obsfcst", "qq", "scatter", "cond", "freq", "hist", "sort", "marginal", "reliability", "invreliability",
             "discrimination", "roc", "performance", "taylor", "error", "pithist", "spreadskill", "bsdecomp", "standard",
             "droc0", "droc", "against", "change", "igncontrib", "economicvalue", "murphy", "timeseries", "meteo"]
 ORACLE_ONLY = []
 VIEWS_MODELLED = ["rank", "impact", "map", "maprank", "mapimpact"]      # -type views of a standard metric: props/c16v.py
-UNMODELLED = ["fss", "autocorr", "autocov"]      # no Lean model; exact-arithmetic oracle + read-back: props/c16w.py
-ORACLE_ONLY_VIEWS = ["fss", "autocorr", "autocov"]
+UNMODELLED = []
+DISTANCE_MODELLED = ["fss", "autocorr", "autocov"]      # Model/DiagramFss.lean + exact-arithmetic oracle + read-back: props/c16w.py
+ORACLE_ONLY_VIEWS = []
 AXES = ["leadtime", "location", "time", "leadtimeday", "elev"]
 TIME_AXES = ["month", "week", "year", "day", "timeofday", "dayofyear", "dayofmonth", "monthofyear"]
 THEOREMS = {"Proofs.C16": ["VerifModel.C16." + t for t in [
@@ -51,6 +52,7 @@ THEOREMS["Proofs.C16Std"] = ["VerifModel.C16." + t for t in [
     "C16_standard_acc", "C16_standard_bars", "C16_standard_lines", "C16_std_cell_agg", "C16_std_cell_cont",
     "C16_std_cell_prob", "C16_obsfcst_default", "C16_def_obsfcst_agg"]]
 THEOREMS.update(c16v.THEOREMS)
+THEOREMS.update(c16w.THEOREMS)
 TRUSTED_BASE = [
     "Lean 4.33 kernel; axioms propext, Classical.choice, Quot.sound only",
     "Spec/Diagram.lean, Spec/DiagramMore.lean: my reading of each diagram's defining statistic (Wilks; Taylor 2001; Roebber 2009; "
@@ -80,7 +82,7 @@ TRUSTED_BASE = [
     "diag.artists / diag.cli / diag.sequence; the score of one cell reuses the models of C05 (Gen.Det + Model/Aggregator), C06 "
     "(Model/Contingency) and C08 (Model/Prob kernels), the -acc model of C12 (Model/OutputTable.acc); the columns handed to the model "
     "are those Data.get_scores returns for each (interval, slice); bar read-back = left edge, height, width of the patches",
-    "autocorr / autocov / fss: harness/props/c16w.py only (exact-arithmetic oracle on the artists read back); no Lean model",
+    "autocorr / autocov / fss: " + c16w.TRUSTED_TEXT,
     "views (-type rank/impact/map/maprank/mapimpact): Spec/DiagramViews.lean is my reading of the comments, labels and docstrings of "
     "verif.output.Standard (there is no help text beyond the list of -type values); Model/DiagramViews.lean is hand-written from "
     "_plot_rank_core / _plot_impact_core / _map_core / _plot_mapimpact_core and tied to the code by the stream diag.view; read-back of "
@@ -128,7 +130,7 @@ ASSUMPTIONS = [
     "obsfcst, qq, scatter: -agg (all aggregators above) on every line incl. the observation line and quantile lines; obsfcst -acc and "
     "-x no (bars: observation, forecasts in input order, quantile lines); -x for taylor / performance / bsdecomp / qq / scatter / "
     "obsfcst / standard also from the calendar axes; -hist / -sort also of the pit field of probabilistic inputs",
-    "oracle only (no Lean model), props/c16w.py: " + ", ".join(ORACLE_ONLY_VIEWS) + " - " + c16w.ASSUMPTIONS_TEXT,
+    "distance diagrams (Lean model Model/DiagramFss.lean + oracle props/c16w.py): " + ", ".join(DISTANCE_MODELLED) + " - " + c16w.ASSUMPTIONS_TEXT,
     "NOT covered at all: -x obs|fcst of standard plots; of the users of "
     "util.fill only the bands of obsfcst -q and meteo are read back from a diagram (the reliability confidence / no-skill areas "
     "and the timeseries bands are decoration here; util.fill itself is checked directly); a band vertex is 'missing' iff NaN "
